@@ -141,7 +141,8 @@ pub fn gen_mapping(r: &mut Rng, o: &GenOpts) -> String {
             }
             if o.noise && r.chance(1, 10) {
                 s.push_str(*r.pick(&["garbage line", "  two spaces", "# just a comment", "a -> b", "    void nope()", "\t", " ",
-                    "  éa.B -> c:", "  xéa.B -> c:", "  ééa.B -> c:", "x é a.B -> c: extra", "    nope é x.Y -> z:", "  ü    void f() -> g", "  xyzü    1:2:void f() -> g"]));
+                    "  éa.B -> c:", "  xéa.B -> c:", "  ééa.B -> c:", "x é a.B -> c: extra", "    nope é x.Y -> z:", "  ü    void f() -> g", "  xyzü    1:2:void f() -> g",
+                    "    # {\"id\":\"com.android.tools.r8.residualsignature\",\"signature\":\"()V\"}", "      # {\"id\":\"x\"}", "    # comment"]));
                 s.push_str(nl);
             }
             if o.noise && r.chance(1, 10) {
@@ -194,7 +195,11 @@ pub fn gen_mapping(r: &mut Rng, o: &GenOpts) -> String {
                 let tail = if o.dom == Dom::Wild && r.chance(1, 12) { *r.pick(&["\u{b}", "\u{c}", "\u{b}\u{c}", " "]) } else { "" };
                 s.push_str(&format!("    {}{} {}{}({}){} -> {}{}{}", lines, r.pick(TYPES), oc, orig, args, ol, obf, tail, nl));
                 i += 1;
-                let _ = g;
+                // noise between the entries of an inline group (R8 writes indented `# {..}` comments there)
+                if o.noise && g + 1 < grp && r.chance(1, 5) {
+                    s.push_str(*r.pick(&["    # {\"id\":\"com.android.tools.r8.residualsignature\",\"signature\":\"()V\"}", "      # {\"id\":\"x\"}", "garbage", "", "    # c"]));
+                    s.push_str(nl);
+                }
             }
         }
     }
@@ -290,6 +295,12 @@ pub fn class_queries(u: &Universe, r: &mut Rng) -> Vec<String> {
     }
     v.insert("zz.unknown".into());
     v.insert(String::new());
+    // the JVM-internal spelling of a known class is a different name
+    for c in u.classes.iter().take(3) {
+        if c.contains('.') {
+            v.insert(c.replace('.', "/"));
+        }
+    }
     v.insert(r.pick(CLS).to_string());
     v.into_iter().collect()
 }
@@ -307,6 +318,13 @@ pub fn line_set(u: &Universe, r: &mut Rng, all: bool) -> Vec<usize> {
     }
     for x in [0usize, 1, 66, (1 << 32) - 2, (1 << 32) - 1, 1 << 32, usize::MAX] {
         v.insert(x);
+    }
+    // lines congruent to a boundary modulo 2^32 (a narrowing cast of the frame line would alias them)
+    for n in u.numbers.iter().take(4) {
+        if *n < (1 << 32) {
+            v.insert((1usize << 32) + *n);
+            v.insert((3usize << 32) + *n);
+        }
     }
     if all {
         for x in 0..=66 {
@@ -367,6 +385,9 @@ pub fn emit_queries(out: &mut Vec<String>, mapping: &[u8], r: &mut Rng, q: Query
                     out.push(format!("L {} {} {} {}", hex(c.as_bytes()), hex(m.as_bytes()), l, hex(b"SF.java")));
                 } else if r.chance(1, 2) {
                     out.push(format!("L {} {} {} ~", hex(c.as_bytes()), hex(m.as_bytes()), l));
+                } else if r.chance(1, 8) {
+                    // the frame's own file is the synthetic-class placeholder / empty
+                    out.push(format!("L {} {} {} {}", hex(c.as_bytes()), hex(m.as_bytes()), l, hex(r.pick(&["R8$$SyntheticClass", "", "<unknown>"]).as_bytes())));
                 } else {
                     out.push(format!("L {} {} {} {}", hex(c.as_bytes()), hex(m.as_bytes()), l, hex(b"SF.java")));
                 }
